@@ -456,4 +456,71 @@ def powInt (a b : Int) : Except Exc Int :=
   if b < 0 then .error (.raised "py2lean: ** with a negative exponent (float result) is outside the modelled subset")
   else .ok (a ^ b.toNat)
 
+/-! ### additions for functions with `return` inside loops, `try/except` whose handler continues, generators and
+    callbacks (`decoder.generate_bufr_message`, C11 / C12) -/
+
+/-- How a block of statements ends: it ran to its end, a `return` was executed, or an exception is propagating.
+    Every case carries the variables at that moment, so a handler (`try/except`) and the caller of a generator see the
+    state as it was when the exception was raised. -/
+inductive Flow (σ : Type) where
+  | next (v : σ)
+  | ret (v : σ)
+  | raise (e : Exc) (v : σ)
+
+/-- statement sequencing -/
+def Flow.bind {σ : Type} (x : Flow σ) (f : σ → Flow σ) : Flow σ :=
+  match x with
+  | .next v => f v
+  | .ret v => .ret v
+  | .raise e v => .raise e v
+
+/-- evaluate an expression that may raise, in the state `v` -/
+def Flow.eval {σ α : Type} (v : σ) (x : Except Exc α) (k : α → Flow σ) : Flow σ :=
+  match x with
+  | .ok a => k a
+  | .error e => .raise e v
+
+/-- `try: body  except E [as e]: handler` — the handler runs in the state at the moment of the exception -/
+def Flow.tryExcept {σ : Type} (body : Flow σ) (catches : Exc → Bool) (handler : Exc → σ → Flow σ) : Flow σ :=
+  match body with
+  | .raise e v => if catches e then handler e v else .raise e v
+  | r => r
+
+/-- the end of a function body: the final variables and how it ended (`.ok`: end of the body or `return`) -/
+def Flow.finish {σ : Type} : Flow σ → σ × Except Exc Unit
+  | .next v => (v, .ok ())
+  | .ret v => (v, .ok ())
+  | .raise e v => (v, .error e)
+
+/-- `None.attr`: `AttributeError` -/
+def unwrapAttr {α : Type} : Option α → Except Exc α
+  | some a => .ok a
+  | none => .error (.raised "AttributeError")
+
+/-- truth value of a `str` / `bytes` / `list` that may be `None`: `None` and the empty sequence are false -/
+def truthyOptSeq {α : Type} : Option (List α) → Bool
+  | some (_ :: _) => true
+  | _ => false
+
+/-- lowest index `≥ i` (counting the first element of the list given as index `i`) at which `needle` occurs -/
+def seqFindFrom {α : Type} [BEq α] (needle : List α) : List α → Nat → Int
+  | [], i => if needle.isEmpty then (i : Int) else -1
+  | c :: t, i => if needle.isPrefixOf (c :: t) then (i : Int) else seqFindFrom needle t (i + 1)
+
+/-- `hay.find(needle, start)` for `bytes` / `str`: a negative `start` counts from the end (clipped at 0); `-1` when
+    there is no occurrence at or after `start` (in particular when `start > len(hay)`) -/
+def seqFind {α : Type} [BEq α] (hay needle : List α) (start : Int) : Int :=
+  let st : Nat := if start < 0 then (start + (hay.length : Int)).toNat else start.toNat
+  if st > hay.length then -1 else seqFindFrom needle (hay.drop st) st
+
+/-- a slice bound `i` of a sequence of length `n`: negative counts from the end, then clipped to `0 .. n` -/
+def sliceIdx (n : Nat) (i : Int) : Nat :=
+  if i < 0 then (i + (n : Int)).toNat else min i.toNat n
+
+/-- `xs[lo:hi]` (step 1; a missing bound is `None`) -/
+def sliceSeq {α : Type} (xs : List α) (lo hi : Option Int) : List α :=
+  let a := match lo with | none => 0 | some i => sliceIdx xs.length i
+  let b := match hi with | none => xs.length | some i => sliceIdx xs.length i
+  (xs.take b).drop a
+
 end Py
